@@ -139,10 +139,12 @@ Section TotalForce.
     | CEigenvector (ids : list nat) (refs : list vec) (evec : list vec) (center : option vec)
     (* extra = the permuted copies of the reference positions made by the atomPermutation lines of rmsd
        (symmetry-adapted RMSD): value, gradients and inverse gradients use the copy closest to the positions *)
+    (* fitf (CRmsdRot with atomPermutation only): the derivatives of the optimal rotation (atom_group::fit_gradients, laboratory
+       frame, one per atom) that the forces of such an rmsd contain: an INPUT of the model like the quaternion *)
     (* the default fit of rmsd / eigenvector: centred and optimally rotated onto the reference positions.
        rotf gives the optimal quaternion rotation::q for the positions of a step (the matrices are computed from it) and jdf the Jacobian derivative computed from the
        derivatives of the optimal rotation: both are INPUTS of the model (not modelled), taken from the implementation *)
-    | CRmsdRot (ids : list nat) (refs : list vec) (extra : list (list vec)) (rotf : field -> quat) (jdf : field -> T)
+    | CRmsdRot (ids : list nat) (refs : list vec) (extra : list (list vec)) (rotf : field -> quat) (jdf : field -> T) (fitf : field -> list vec)
     | CEigenvectorRot (ids : list nat) (refs : list vec) (evec : list vec) (rotf : field -> quat) (jdf : field -> T).
 
     (* atoms a component depends on *)
@@ -154,7 +156,7 @@ Section TotalForce.
       | CAngle g1 g2 g3 _ => gids g1 ++ gids g2 ++ gids g3
       | CDihedral g1 g2 g3 g4 _ => gids g1 ++ gids g2 ++ gids g3 ++ gids g4
       | CGyration ids | CRmsd ids _ _ _ | CEigenvector ids _ _ _ => ids
-      | CRmsdRot ids _ _ _ _ | CEigenvectorRot ids _ _ _ _ => ids
+      | CRmsdRot ids _ _ _ _ _ | CEigenvectorRot ids _ _ _ _ => ids
       end.
 
     (* atoms whose total force a component reads (read_total_forces in calc_force_invgrads) *)
@@ -169,7 +171,7 @@ Section TotalForce.
       | CAngle g1 g2 g3 os => if os then gids g1 else gids g1 ++ gids g3
       | CDihedral g1 g2 g3 g4 os => if os then gids g1 else gids g1 ++ gids g4
       | CGyration ids | CRmsd ids _ _ _ | CEigenvector ids _ _ _ => ids
-      | CRmsdRot ids _ _ _ _ | CEigenvectorRot ids _ _ _ _ => ids
+      | CRmsdRot ids _ _ _ _ _ | CEigenvectorRot ids _ _ _ _ => ids
       end.
 
     (* ---- distance ---- *)
@@ -252,6 +254,8 @@ Section TotalForce.
     Fixpoint vsub_list (l r : list vec) : list vec :=
       match l, r with a :: l', b :: r' => vsub a b :: vsub_list l' r' | _, _ => [] end.
     Definition norm2_sum (l : list vec) : T := tsum (map vnorm2 l).
+    Fixpoint vadd_list (l r : list vec) : list vec :=
+      match l, r with a :: l', b :: r' => vadd a b :: vadd_list l' r' | _, _ => [] end.
     (* rmsd::calc_value with atomPermutation: the copy of the reference with the smallest sum of squared
        displacements from the positions fp; a later copy wins only if strictly smaller *)
     Fixpoint best_copy (fp : list vec) (cur : list vec) (extra : list (list vec)) : list vec :=
@@ -316,7 +320,7 @@ Section TotalForce.
       | CGyration ids => gyr_value ids
       | CRmsd ids refs extra center => rmsd_value ids (rmsd_best ids refs extra center) center
       | CEigenvector ids refs evec center => dot_list (vsub_list (frame_pos ids center) refs) (eig_vec evec)
-      | CRmsdRot ids refs extra rotf _ =>
+      | CRmsdRot ids refs extra rotf _ _ =>
           let R := rotmat (rotf pos) in rmsdrot_value ids refs R (rmsdrot_best ids refs extra R)
       | CEigenvectorRot ids refs evec rotf _ => dot_list (vsub_list (rot_frame ids refs (rotmat (rotf pos))) refs) (eig_vec evec)
       end.
@@ -370,9 +374,13 @@ Section TotalForce.
           let g := eig_vec evec in
           fadd (aapply ids g fc) (aapply ids (fit_grads (length ids) center g) fc)
       (* apply_colvar_force with f_ag_rotate: forces rotated back with the inverse rotation; no fit gradients *)
-      | CRmsdRot ids refs extra rotf _ =>
+      | CRmsdRot ids refs extra rotf _ fitf =>
           let R := rotmat (rotf pos) in
-          aapply ids (map (mvmul (rotmat (qconj (rotf pos)))) (rmsdrot_grads ids refs R (rmsdrot_best ids refs extra R))) fc
+          let direct := aapply ids (map (mvmul (rotmat (qconj (rotf pos)))) (rmsdrot_grads ids refs R (rmsdrot_best ids refs extra R))) fc in
+          match extra with
+          | [] => direct                               (* standard rmsd: fit gradients disabled (they cancel) *)
+          | _ => fadd direct (aapply ids (fitf pos) fc)  (* atomPermutation: + fc * fit_gradients *)
+          end
       | CEigenvectorRot ids refs evec rotf _ => aapply ids (map (mvmul (rotmat (qconj (rotf pos)))) (eig_vec evec)) fc
       end.
 
@@ -410,13 +418,22 @@ Section TotalForce.
           let dxdr := one / gyr_value ids in
           adot ids (map (vscale dxdr) (gyr_pos ids)) F
       | CRmsd ids refs extra center =>
-          adot ids (rmsd_grads ids (rmsd_best ids refs extra center) center) F * ofnat (length ids)
+          let g := rmsd_grads ids (rmsd_best ids refs extra center) center in
+          match center with
+          | None => adot ids g F * ofnat (length ids)
+          (* fit gradients enabled: project on the complete gradient G = grad + fit, normalised by sum |G|^2 *)
+          | Some _ => let G := vadd_list g (fit_grads (length ids) center g) in adot ids G F / norm2_sum G
+          end
       | CEigenvector ids refs evec center =>
           adot ids (map (vscale (eig_invnorm2 evec)) (eig_vec evec)) F
       (* read_total_forces rotates the atomic forces into the frame of the gradients *)
-      | CRmsdRot ids refs extra rotf _ =>
+      | CRmsdRot ids refs extra rotf _ fitf =>
           let R := rotmat (rotf pos) in
-          adot ids (rmsdrot_grads ids refs R (rmsdrot_best ids refs extra R)) (frot R F) * ofnat (length ids)
+          let g := rmsdrot_grads ids refs R (rmsdrot_best ids refs extra R) in
+          match extra with
+          | [] => adot ids g (frot R F) * ofnat (length ids)
+          | _ => let G := vadd_list g (map (mvmul R) (fitf pos)) in adot ids G (frot R F) / norm2_sum G
+          end
       | CEigenvectorRot ids refs evec rotf _ =>
           adot ids (map (vscale (eig_invnorm2 evec)) (eig_vec evec)) (frot (rotmat (rotf pos)) F)
       end.
@@ -438,7 +455,7 @@ Section TotalForce.
           let tr := match center with Some _ => nofZ O 3 | None => zero end in
           if nltb O zero x then (nofZ O 3 * ofnat (length ids) - one - tr - zero) / x else zero
       | CEigenvector _ _ _ _ => zero    (* no rotation: the projection is linear in the coordinates *)
-      | CRmsdRot _ _ _ _ jdf | CEigenvectorRot _ _ _ _ jdf => jdf pos
+      | CRmsdRot _ _ _ _ jdf _ | CEigenvectorRot _ _ _ _ jdf => jdf pos
       end.
 
     (* ------------------------------------------------------------------ the variable *)
@@ -464,10 +481,13 @@ Section TotalForce.
     Definition cv_atoms (cv : colvar) : list nat := flat_map (fun p => cvc_atoms (fst p)) (cv_comps cv).
   End Sys.
 
-  (* whether collect_cvc_total_forces adds the Jacobian force *)
-  Definition adds_fj (cv : colvar) : bool := negb (cv_hide cv && (cv_subtract cv || cv_samestep cv)).
-  (* update_forces_energy: f = fb - (hideJacobian ? fj : 0) *)
-  Definition applied_force (cv : colvar) (fb fj : T) : T := if cv_hide cv then fb - fj else fb.
+  (* whether collect_cvc_total_forces adds the Jacobian force; comp = prev_Jacobian_force_compensated: the variable
+     applied the compensating force -fj at the step the (lagged) total force is about *)
+  Definition adds_fj (cv : colvar) (comp : bool) : bool :=
+    negb (cv_hide cv && (cv_subtract cv || cv_samestep cv || negb comp)).
+  (* update_forces_energy: f = fb - fj when the Jacobian is hidden AND a bias applies a force to the variable
+     (apply = f_cv_apply_force: only then is the force communicated to the atoms) *)
+  Definition applied_force (cv : colvar) (apply : bool) (fb fj : T) : T := if cv_hide cv && apply then fb - fj else fb.
 
   (* ------------------------------------------------------------------ one step of colvar::calc +
      update_forces_energy + communicate_forces + end_of_step.
@@ -477,9 +497,10 @@ Section TotalForce.
     st_fj : T;
     st_ft : T;
     st_fold : T;
-    st_rel : nat
+    st_rel : nat;
+    st_comp : bool     (* prev_Jacobian_force_compensated *)
   }.
-  Definition cv_init : cvstate := mkCvstate fzero zero zero zero 0.
+  Definition cv_init : cvstate := mkCvstate fzero zero zero zero 0 false.
 
   Record cvout : Type := mkCvout {
     o_ft : T;          (* ft_reported *)
@@ -487,34 +508,36 @@ Section TotalForce.
     o_forces : field   (* atoms_new_colvar_forces *)
   }.
 
-  Definition cv_step (mass : nat -> T) (cv : colvar) (s : cvstate) (pos F : field) (fb : T) : cvstate * cvout :=
+  Definition cv_step (mass : nat -> T) (cv : colvar) (s : cvstate) (pos F : field) (fb : T) (apply : bool) : cvstate * cvout :=
     let measured_lagged := negb (cv_samestep cv) && (0 <? st_rel s)%nat in
     (* lagged: calc_cvc_total_force + collect_cvc_total_forces before the values of this step *)
     let ft1 :=
       if cv_samestep cv then st_ft s
       else if measured_lagged
-           then cv_proj mass (st_prev_pos s) cv F + (if adds_fj cv then st_fj s else zero)
+           then cv_proj mass (st_prev_pos s) cv F + (if adds_fj cv (st_comp s) then st_fj s else zero)
            else st_ft s in
     let fj := cv_fj mass pos cv in
     (* same step: after the values and Jacobians of this step *)
     let ft2 :=
-      if cv_samestep cv then cv_proj mass pos cv F + (if adds_fj cv then fj else zero) else ft1 in
+      if cv_samestep cv then cv_proj mass pos cv F + (if adds_fj cv (st_comp s) then fj else zero) else ft1 in
     (* calc_colvar_properties *)
     let ft3 :=
       if cv_subtract cv && negb (cv_samestep cv) && measured_lagged then ft2 - st_fold s else ft2 in
-    let f := applied_force cv fb fj in
-    let fold := if cv_subtract cv then f else st_fold s in
-    (mkCvstate pos fj ft3 fold (S (st_rel s)), mkCvout ft3 f (cv_apply mass pos cv f)).
+    let f := applied_force cv apply fb fj in
+    let fold := if cv_subtract cv then f else st_fold s in      (* end_of_step, at every step *)
+    (* communicate_forces runs only while a bias applies a force to the variable *)
+    (mkCvstate pos fj ft3 fold (S (st_rel s)) (cv_hide cv && apply),
+     mkCvout ft3 f (if apply then cv_apply mass pos cv f else fzero)).
 
   (* ------------------------------------------------------------------ the engine (harness/vsim.h step()):
      positions and its own forces per step; in the lagged convention it hands over the force that acted at
      the previous step, including (includecv) the forces Colvars applied then. *)
-  Record einput : Type := mkEinput { e_pos : field; e_force : field; e_fb : T }.
+  Record einput : Type := mkEinput { e_pos : field; e_force : field; e_fb : T; e_apply : bool }.
   Record estate : Type := mkEstate { es_cv : cvstate; es_prev_total : field }.
   Definition eng_init : estate := mkEstate cv_init fzero.
   Definition eng_step (mass : nat -> T) (cv : colvar) (includecv : bool) (s : estate) (i : einput) : estate * cvout :=
     let F := if cv_samestep cv then e_force i else es_prev_total s in
-    let '(cs, out) := cv_step mass cv (es_cv s) (e_pos i) F (e_fb i) in
+    let '(cs, out) := cv_step mass cv (es_cv s) (e_pos i) F (e_fb i) (e_apply i) in
     (mkEstate cs (if includecv then fadd (e_force i) (o_forces out) else e_force i), out).
   Fixpoint eng_run (mass : nat -> T) (cv : colvar) (includecv : bool) (s : estate) (l : list einput) : estate * list cvout :=
     match l with
